@@ -290,3 +290,24 @@ def same(a, b, rtol=1e-9) -> bool:
     with np.errstate(all="ignore"):
         ok = np.isclose(a, b, rtol=rtol, atol=1e-12, equal_nan=True) | (~np.isfinite(a) & ~np.isfinite(b))
     return bool(np.all(ok))
+
+
+def same_up_to_conditioning(compute_a, compute_b, env, rng, rtol=1e-9) -> bool:
+    """``same`` with the empirical-conditioning term of DESIGN 7.2: the two computations may differ by 1e3 x the change either
+    shows under three 1e-13 relative perturbations of the float inputs (cancellation in Chew-Mandelstam logs, Kallen of
+    hierarchical arguments, ...).  Only called after the plain comparison failed."""
+    with np.errstate(all="ignore"):
+        a, b = np.asarray(compute_a(env)), np.asarray(compute_b(env))
+        try:
+            a, b = np.broadcast_arrays(a, b)
+        except ValueError:
+            return False
+        noise = np.zeros(a.shape)
+        for _ in range(3):
+            env2 = {k: (v * (1 + 1e-13 * rng.normal(size=np.shape(v))) if isinstance(v, np.ndarray) and v.dtype.kind == "f" else v)
+                    for k, v in env.items()}
+            for comp, base in ((compute_a, a), (compute_b, b)):
+                d = np.abs(np.asarray(comp(env2)) - base)
+                noise = np.maximum(noise, np.where(np.isfinite(d), d, np.inf))
+        ok = (np.abs(a - b) <= rtol * (np.abs(a) + np.abs(b)) + 1e-12 + 1e3 * noise) | (~np.isfinite(a) & ~np.isfinite(b))
+    return bool(np.all(ok))
